@@ -4,6 +4,13 @@ import json
 props=[json.loads(l) for l in open('/verif/properties.jsonl')]
 # id -> (technique, level text, level note)
 CLAIMED={
+ 'C08':("exhaustive enumeration of programs x inputs (paths up to a step bound x document universe) against an independent tree evaluator",
+        "every path of the enumerated grammar fragments applied to every document of the universe/subset; item sequences compared in order with repetitions; three-valued where the README is silent",
+        "bounded path length (<=3/4 steps, one filter per path, expression depth<=2) and document universe"),
+ 'C15':("exhaustive enumeration of programs x inputs x configurations (4 modes, 11 entry points), relational oracle",
+        "the C08 enumeration evaluated through all modes and convenience functions and related to each other",
+        "bounded as C08; relational oracle needs no model"),
+
  'C03':("bounded-exhaustive enumeration of documents, all Unicode scalar values and complete float pattern sets against an independent strict RFC 8259 parser",
         "both renderings of every document are parsed by the independent strict parser and compared with the document; pretty layout derived from the compact tokens",
         "bounded universes; floats: complete 2^16 / 2^32 pattern sets, not all 2^64"),
